@@ -336,6 +336,48 @@ func buildAlphabet() []tok {
 	add("bad:varint11", append(encTag(6, wtVarint), 0xFF, 0xFF, 0xFF, 0xFF, 0xFF, 0xFF, 0xFF, 0xFF, 0xFF, 0xFF, 0x01), false, true)
 	add("bad:varint-overflow", append(encTag(11, wtVarint), 0xFF, 0xFF, 0xFF, 0xFF, 0xFF, 0xFF, 0xFF, 0xFF, 0xFF, 0x02), false, false)
 	add("bad:len-overrun", []byte{byte(12<<3 | wtBytes), 0xFF, 0xFF, 0xFF, 0xFF, 0x0F, 'x'}, false, true)
+	// quantifier audit: the quantifier says "fields 1..15". 2 (tunnel_service_addr, string) and 14 (undeclared)
+	// get the standard token set; 3 (player) and 4 (auth) are typed MESSAGE fields, so their length-delimited
+	// payloads are valid sub-messages (an invalid one is refused by any typed parser before the scan runs) that
+	// carry principal-numbered fields 9 and 12 INSIDE them - not top-level fields. Appended at the end so that
+	// token indexes of recorded replays stay valid. Full alphabet only.
+	for _, n := range []int{2, 14} {
+		a := func(k string, enc []byte) { add(fmt.Sprintf("%d:%s", n, k), enc, false, false) }
+		for _, v := range []struct {
+			k string
+			v uint64
+		}{{"v:0", 0}, {"v:1", 1}, {"v:2", 2}, {"v:2^31", 1 << 31}, {"v:-1", ^uint64(0)}} {
+			a(v.k, append(encTag(n, wtVarint), encVarint(v.v)...))
+		}
+		a("i64", append(encTag(n, wtI64), 1, 2, 3, 4, 5, 6, 7, 8))
+		a("i32", append(encTag(n, wtI32), 1, 2, 3, 4))
+		a("b:", encBytesField(n, nil))
+		a("b:x", encBytesField(n, []byte("x")))
+		a("b:16", encBytesField(n, val16))
+		a("b:15", encBytesField(n, val15))
+		a("g:empty", append(encTag(n, wtSGroup), encTag(n, wtEGroup)...))
+		g := append(encTag(n, wtSGroup), encBytesField(12, []byte("x"))...)
+		a("g:env", append(g, encTag(n, wtEGroup)...))
+	}
+	nested := append(encBytesField(12, []byte("x")), encBytesField(9, val16)...)
+	for _, n := range []int{3, 4} {
+		a := func(k string, enc []byte) { add(fmt.Sprintf("%d:%s", n, k), enc, false, false) }
+		a("v:1", append(encTag(n, wtVarint), 1))
+		a("i64", append(encTag(n, wtI64), 1, 2, 3, 4, 5, 6, 7, 8))
+		a("i32", append(encTag(n, wtI32), 1, 2, 3, 4))
+		a("b:", encBytesField(n, nil))
+		known := encBytesField(2, []byte("198.51.100.7:1")) // Player.addr
+		if n == 4 {
+			known = []byte{0x08, 0x01} // Authentication.passthrough = true
+		}
+		a("b:msg", encBytesField(n, known))
+		a("b:msg+nested-9-12", encBytesField(n, append(append([]byte(nil), known...), nested...)))
+		a("g:empty", append(encTag(n, wtSGroup), encTag(n, wtEGroup)...))
+		g := append(encTag(n, wtSGroup), encBytesField(12, []byte("x"))...)
+		a("g:env", append(g, encTag(n, wtEGroup)...))
+	}
+	// nonce one byte above the size (15 and 16 are in the per-field set, max+1 far above)
+	add("9:b:17", encBytesField(9, append(append([]byte(nil), val16...), 'g')), false, false)
 	return out
 }
 
